@@ -331,12 +331,36 @@ func whole(v val) (string, bool) {
 	return "(⟨" + strings.Join(parts, ", ") + "⟩ : " + v.lean + ")", true
 }
 
+// leanFields: the struct fields are addressed POSITIONALLY.  The i-th field of a Go struct is the i-th field of the Lean
+// record, under the fixed name the tie is stated against: the names of the model's records for Uint128 / Int128, the
+// names below for a private field of a generated structure, the Go name for an exported field (exported names are
+// API).  Renaming a private field in the Go source changes nothing in the generated text.
+var leanFields = map[string][]string{
+	pkgPath + ".Uint128": {"hi", "lo"},
+	pkgPath + ".Int128":  {"hi", "lo"},
+	f128Path + ".Int":    {"data"},
+}
+
+func leanFieldName(t types.Type, i int) string {
+	n, _ := types.Unalias(t).(*types.Named)
+	st := t.Underlying().(*types.Struct)
+	if n != nil && n.Obj().Pkg() != nil {
+		if fs, ok := leanFields[n.Obj().Pkg().Path()+"."+n.Obj().Name()]; ok && i < len(fs) {
+			return fs[i]
+		}
+	}
+	if st.Field(i).Exported() {
+		return ident(st.Field(i).Name())
+	}
+	return fmt.Sprintf("f%d", i)
+}
+
 // namedStruct makes the value of a Lean variable / let-bound name of a struct type
 func namedStruct(name string, t types.Type) val {
 	l, st, _ := structInfo(t)
 	v := val{k: kStruct, e: name, atom: true, lean: l}
 	for i := 0; i < st.NumFields(); i++ {
-		fn := name + "." + st.Field(i).Name()
+		fn := name + "." + leanFieldName(t, i)
 		if _, _, isSt := structInfo(st.Field(i).Type()); isSt {
 			v.fields = append(v.fields, namedStruct(fn, st.Field(i).Type()))
 		} else {
@@ -1140,7 +1164,7 @@ func (t *fnTrans) merge(sub *node, join *ssa.BasicBlock, envB *env) (*env, strin
 				if same(xs) && xs[0] == valText(base.fields[fi]) {
 					continue
 				}
-				comps = append(comps, comp{name: a.Name() + "_" + st.Field(fi).Name(), typ: st.Field(fi).Type(), exprs: xs, alloc: a, fidx: fi})
+				comps = append(comps, comp{name: a.Name() + "_" + leanFieldName(elem, fi), typ: st.Field(fi).Type(), exprs: xs, alloc: a, fidx: fi})
 			}
 		} else {
 			var xs []string
@@ -2057,7 +2081,7 @@ func main() {
 			}
 			var fs []string
 			for i := 0; i < st.NumFields(); i++ {
-				fs = append(fs, fmt.Sprintf("  %s : %s", ident(st.Field(i).Name()), leanType(st.Field(i).Type())))
+				fs = append(fs, fmt.Sprintf("  %s : %s", leanFieldName(obj.Type(), i), leanType(st.Field(i).Type())))
 			}
 			param := ""
 			if l, _, okS := structInfo(obj.Type()); okS && strings.HasSuffix(l, " α") {
